@@ -1627,6 +1627,8 @@ impl LsmTree {
 
     pub(crate) fn take_snapshot(&self) -> VersionRef<'_> {
         let version = Arc::clone(&*self.version.lock().unwrap());
+        #[cfg(blue_verif)]
+        crate::verif::yield_point(6);
         VersionRef {
             tree: self,
             version,
